@@ -202,7 +202,10 @@ func (s *Storage) KindSameAs(kind int, snap []Entry) bool {
 }
 
 // NodeIdStorage additionally supports lookup by node ID (nodeenrollment.NodeIdLoader).
-type NodeIdStorage struct{ *Storage }
+type NodeIdStorage struct {
+	*Storage
+	EmptyAsSet bool // report "no records under this node ID" as an empty set with a nil error instead of ErrNotFound
+}
 
 func (s *NodeIdStorage) LoadByNodeId(ctx context.Context, m nodeenrollment.MessageWithNodeId) error {
 	set, ok := m.(*types.NodeInformationSet)
@@ -222,7 +225,7 @@ func (s *NodeIdStorage) LoadByNodeId(ctx context.Context, m nodeenrollment.Messa
 			out = append(out, n)
 		}
 	}
-	if len(out) == 0 {
+	if len(out) == 0 && !s.EmptyAsSet {
 		return nodeenrollment.ErrNotFound
 	}
 	set.Nodes = out
